@@ -14,7 +14,6 @@ import (
 	"runtime/debug"
 	"strconv"
 	"strings"
-	"sync"
 	"sync/atomic"
 	"time"
 
@@ -23,7 +22,10 @@ import (
 
 	"verifharness/fixref"
 	"verifharness/gen"
+	"verifharness/rig"
 	"verifharness/vk"
+
+	"github.com/b2broker/simplefix-go/session"
 )
 
 type target struct {
@@ -299,7 +301,7 @@ func soup(r *rand.Rand, tg *target) []byte {
 
 func main() {
 	c := vk.Init("C11")
-	c.Rule("inputs: (a) every string of length 0..3 over {8,9,=,SOH,1,0,x} (exhaustive, 400 strings); (b) field soups built from the target template's own tags (missing '=', empty fields, repeated SOH, group counts without followers / with wrong counts / wrong first tags, CheckSum tag in the middle) and then frame-fixed by the reference encoder so that they pass the integrity check and reach field and group parsing; (c) byte-level mutations of valid library output; (d) coverage-guided inputs from go test -fuzz (iteration-bounded). Each input is parsed strict and non-strict into every tests/fix44 type and generated templates with nested groups, as an exact-capacity slice and again embedded in a larger buffer with an adversarial tail (results must agree), and looked up with ValueByTag. distinct = hash(input, target); non-trivial = the input passes the integrity check (CheckFrame) or is shorter than a framing tag")
+	c.Rule("inputs: (a) every string of length 0..3 over {8,9,=,SOH,1,0,x} (exhaustive, 400 strings); (b) field soups built from the target template's own tags (missing '=', empty fields, repeated SOH, group counts without followers / with wrong counts / wrong first tags, CheckSum tag in the middle) and then frame-fixed by the reference encoder so that they pass the integrity check and reach field and group parsing; (c) byte-level mutations of valid library output; (d) coverage-guided inputs from go test -fuzz (iteration-bounded). Each input is parsed strict and non-strict into every tests/fix44 type and generated templates with nested groups, as an exact-capacity slice and again embedded in a larger buffer with an adversarial tail (results must agree), and looked up with ValueByTag; a sample of the soups (also re-typed as administrative messages) is fed to running sessions of both roles through ServeIncoming, where a panic in the handler loop is recorded. distinct = hash(input, target); non-trivial = the input passes the integrity check (CheckFrame) or is shorter than a framing tag")
 	c.Assume("a panic is caught by recover in the calling goroutine; fatal errors kill the child, which the orchestrator reports as a violation with the input last logged to disk")
 	tgs := targets(c)
 	nSoup := c.Pick(24000, 700000) // per run, spread over targets
@@ -356,11 +358,7 @@ func main() {
 		}
 	}()
 
-	var mu sync.Mutex
-	widx := map[int]int{}
 	getWorker := func(slot int) *worker { return workers[slot%nw] }
-	_ = mu
-	_ = widx
 
 	tail := bytes.Repeat([]byte("\x0110=000\x018=FIX\x019=5\x0135=A\x01268=3\x01269=0\x01"), 4)
 
@@ -519,6 +517,42 @@ func main() {
 		tg := tgs[i%len(gen.F44Types)]
 		judgeParse(w, tg, data, "mutated-valid", i)
 		judgeLookup(w, data, lookupTags[r.Intn(len(lookupTags))], "mutated-valid")
+	})
+	// (e) the same hostile bytes through the session's inbound path: no message a peer can send makes it panic
+	nSess := c.Pick(60, 1500)
+	vk.Parallel(nSess, nw, func(i int) {
+		r := c.Rand("c11-session", int64(i))
+		role := rig.Role(i % 2)
+		rg, err := rig.NewStepRig(rig.StepCfg{Role: role, HeartBtInt: 30, Limits: &session.IntLimits{Min: 5, Max: 60}, SentinelBarrier: true})
+		if err != nil {
+			return
+		}
+		defer rg.Close()
+		p := rig.NewPeer()
+		if i%3 != 0 {
+			rg.Inbound(p.Logon(30, "0"))
+		}
+		for k := 0; k < 40; k++ {
+			tg := tgs[r.Intn(len(gen.F44Types))]
+			data := soup(r, tg)
+			if r.Intn(3) == 0 {
+				// admin message types with hostile content
+				data = fixref.EncodeRaw(fixref.Std, "FIX.4.4", append([]byte("35="+[]string{"A", "0", "1", "2", "3", "4", "5"}[r.Intn(7)]+"\x01"), data[bytes.IndexByte(data, 1)+1:]...))
+			}
+			if _, err := fix.ValueByTag(data, "35"); err != nil {
+				continue // a message without MsgType ends the handler loop by design; not a crash
+			}
+			res := rg.Inbound(data)
+			c.Count("session_inbound_hostile_messages", 1)
+			c.Eval(vk.Hash64([]byte("session"), data), fixref.CheckFrame(fixref.Std, data) == nil)
+			if res.Panic != "" {
+				c.Violate("C11/panic-in-session-inbound-path/"+panicClass(strings.SplitN(res.Panic, "\n", 2)[0], res.Panic), fmt.Sprintf("%s session: the inbound path panicked on %s:\n%s", role, vk.Trunc(fixref.Pretty(data), 300), vk.Trunc(res.Panic, 1500)), map[string]interface{}{"input_hex": hex.EncodeToString(data), "role": role.String()})
+				return
+			}
+			if res.RunEnded || res.TimedOut {
+				return
+			}
+		}
 	})
 	close(stop)
 	c.Set("max_scheduler_oversleep_ms", atomic.LoadInt64(&maxCanary)/1e6)
